@@ -7,7 +7,7 @@ from sa.shapes import consumption, has_unknown, flat, Shaper
 from sa.cfg import cfg_of
 from sa.spec import avro_wire as spec
 from .common import analysis, tokens, names_in
-from .c05 import generators, gen_shape, block_writer_shape, block_reader_shape, compress_exprs, raw_var_sources, _enclosing
+from .c05 import generators, gen_shape, block_loop, block_writer_shape, block_reader_shape, compress_exprs, raw_var_sources, _enclosing
 
 PROP = "C04"
 TECHNIQUE = "who-may-call-what census on user streams with control-dependence (CFG guards); header metadata dataflow; Writer typestate (ordering by dominance on dump/write/flush); codec table symmetry with inverse-pair and framing agreement"
@@ -208,8 +208,7 @@ def run(ctx):
     # (e) record generator decodes exactly block_count records from the block buffer
     f, call, init = generators(a)["records"]
     term = gen_shape(a, f)
-    loops = [t for t in term if t[0] == "while"]
-    body = loops[0][2] if loops else []
+    body = block_loop(term) or []
     vt = [t for t in body if t[0] == "V"]
     st = [t for t in body if t[0] == "set"]
     tt = [t for t in body if t[0] == "T"]
